@@ -321,6 +321,7 @@ func checkC02(c *Ctx) {
 
 	c02SameType(c)
 	c02ErrCarry(c)
+	c01FreshBuffer(c) // a message handed to a caller must not share its buffer with the next one read
 
 	// ---- R-unbounded-frames: the reader that returns a call's answer must not impose a line-length limit
 	// (bufio.Scanner stops with ErrTooLong beyond its token limit; a multi-megabyte result is one data line)
